@@ -211,11 +211,12 @@ static int cmd_work(int argc, char **argv) {
 			g_sim.fs = nullptr;
 			st.recheck++;
 			if (r2.trace != r.trace || r2.ok != r.ok) {
-				st.recheck_bad++;
-				fprintf(stderr, "HARNESS-NONDETERMINISM property=%s run=%llu trace %016llx vs %016llx\n", prop.c_str(),
-				        (unsigned long long) i, (unsigned long long) r.trace, (unsigned long long) r2.trace);
-				flush_state();
-				return 2;
+				// reported by the orchestrator as a harness fault unless a violation explains it (state carried between runs)
+				if (st.recheck_bad++ == 0) {
+					fprintf(stderr, "RECHECK-MISMATCH property=%s run=%llu trace %016llx vs %016llx\n", prop.c_str(),
+					        (unsigned long long) i, (unsigned long long) r.trace, (unsigned long long) r2.trace);
+					write_file_atomic(std::string(VERIF_DIR) + "/replays/nondet-" + prop + "-" + std::to_string(i) + ".plan", text);
+				}
 			}
 		}
 		if (!r.ok) {
@@ -231,13 +232,21 @@ static int cmd_work(int argc, char **argv) {
 			g_sim.fs = nullptr;
 			arm_watchdog(0);
 			if (g1.ok || g2.ok || g1.v.clause != r.v.clause || g2.v.clause != g1.v.clause || g1.trace != g2.trace) {
-				fprintf(stderr, "HARNESS-NONDETERMINISM property=%s run=%llu clause=%s: violation did not reproduce in-process (%d %d %s %s %016llx %016llx)\n",
+				// The violation is not stable under re-execution inside this process. Either the harness is at fault or the
+				// code under test carries state from one run to the next (a static buffer, a cached object). The plan is
+				// handed to the orchestrator, which decides by replaying it in fresh processes; nothing is minimised here.
+				fprintf(stderr, "UNSTABLE property=%s run=%llu clause=%s: in-process re-execution gave (%d %d %s %s %016llx %016llx)\n",
 				        prop.c_str(), (unsigned long long) i, r.v.clause.c_str(), (int) g1.ok, (int) g2.ok,
 				        g1.v.clause.c_str(), g2.v.clause.c_str(), (unsigned long long) g1.trace, (unsigned long long) g2.trace);
-				std::string path = std::string(VERIF_DIR) + "/replays/nondet-" + prop + "-" + std::to_string(i) + ".plan";
-				write_file_atomic(path, failing.to_text());
-				flush_state();
-				return 2;
+				if (!st.seen_sigs.count("unstable|" + r.v.clause)) {
+					st.seen_sigs.insert("unstable|" + r.v.clause);
+					std::string path = std::string(VERIF_DIR) + "/replays/" + prop + "-unstable-" + std::to_string(i) + ".plan";
+					failing.expect = r.v.clause;
+					write_file_atomic(path, failing.to_text() + "# sig " + r.v.sig + "\n# " + printable(r.v.detail) + "\n");
+					st.viol.push_back({"UNSTABLE:" + r.v.clause, r.v.sig, path, r.v.detail, 0});
+				} else st.dups++;
+				if (st.viol.size() >= 4) stop = true;
+				continue;
 			}
 			bool is_known = false;
 			for (auto &k : known)
